@@ -19,8 +19,11 @@
 #include <crypto/sha256.h>
 #include <hash.h>
 #include <node/blockstorage.h>
+#include <node/utxo_snapshot.h>
 #include <pow.h>
+#include <streams.h>
 #include <undo.h>
+#include <util/fs.h>
 #include <util/time.h>
 #include <validation.h>
 
@@ -33,7 +36,7 @@ using namespace nodesim;
 
 namespace {
 
-enum { K_MINE = 200, K_ALIGN, K_PRUNE, K_LOCK, K_UNLOCK, K_REORG, K_INVAL, K_RESTART, K_FLUSH, K_AUTOPRUNE, K_REDELIVER, K_BIG };
+enum { K_MINE = 200, K_ALIGN, K_PRUNE, K_LOCK, K_UNLOCK, K_REORG, K_INVAL, K_RESTART, K_FLUSH, K_AUTOPRUNE, K_REDELIVER, K_BIG, K_BG };
 
 constexpr int KEEP = 288;        //!< the statement's "last 288 blocks of the active tip"
 constexpr int NSLOTS = 3;        //!< prune lock names lock0..lock2
@@ -43,6 +46,7 @@ constexpr uint64_t MIB = 1024 * 1024;
 constexpr uint64_t AUTO_RESERVE = 17 * MIB;   //!< documented allocation reserve kept below the target (16 MiB blk chunk + 1 MiB rev chunk)
 constexpr int LOCK_SLACK = 11;                //!< "callers should avoid assuming any particular buffer size": a lock may keep up to 10+1 blocks below it
 constexpr uint64_t MIN_TARGET = 550 * MIB;    //!< documented minimum prune target
+constexpr int SNAP_H = 200;                   //!< regtest assumeutxo height whose chain (test/util/mining.cpp CreateBlockChain) is a pure function of the chain params
 
 const char* kSizeModes[] = {"small(0-3 txs)", "pad 0.3-6 KB", "pad 6-40 KB", "pad 66-140 KB", "mixed", "pad 20-65 KB"};
 
@@ -70,6 +74,7 @@ std::string Describe(const Op& op)
     case K_AUTOPRUNE: snprintf(b, sizeof b, "PruneAndFlush() [automatic prune check]"); break;
     case K_REDELIVER: snprintf(b, sizeof b, "re-deliver pruned block(s) (sel=%ld, n=%ld)", (long)op.arg(0), (long)op.arg(1)); break;
     case K_BIG: snprintf(b, sizeof b, "mine(n=%ld big blocks of %ld-%ld KB, seed=%ld)", (long)op.arg(0), (long)op.arg(2), (long)op.arg(3), (long)op.arg(1)); break;
+    case K_BG: snprintf(b, sizeof b, "background download: %s (n=%ld, sel=%ld)", op.arg(1) ? "one not-yet-delivered block below the snapshot, out of order" : "next blocks below the snapshot in order", (long)op.arg(0), (long)op.arg(2)); break;
     default: snprintf(b, sizeof b, "?");
     }
     return b;
@@ -87,12 +92,20 @@ void GenAuto(Rng& rng, Plan& p)
     p.knobs["fast_prune"] = rng.chance(2, 3);
     int64_t lo = rng.range(600, 850), hi = rng.range(lo, 990);
     // phase A: big blocks until the stored bytes are around the target (ends a little under it or well over it)
-    const int64_t want_kb = (target - 17 + rng.range(-30, 120)) * 1024;
+    // in half of the runs a low lock (height 2-9) holds everything back while usage climbs 100-250 MiB over the target; it is then released
+    // and PruneAndFlush() has to bring usage back under the target in one go
+    const bool held = rng.chance(1, 2);
+    const int64_t want_kb = (target - 17 + (held ? rng.range(100, 250) : rng.range(-30, 120))) * 1024;
     int64_t have_kb = 0;
     while (have_kb < want_kb) {
         int n = (int)rng.range(8, 40);
         p.ops.push_back(Op(K_BIG, {n, (int64_t)(rng.next() >> 16), lo, hi}));
+        if (held && have_kb == 0) p.ops.push_back(Op(K_LOCK, {NSLOTS - 1, 1, (int64_t)rng.range(2, 9), 0}));
         have_kb += n * (lo + hi) / 2;
+        if (held) {
+            if (rng.chance(1, 4)) p.ops.push_back(Op(K_AUTOPRUNE, {}));
+            continue;
+        }
         switch (rng.pick({50, 15, 15, 20, 4})) {
         case 1: p.ops.push_back(Op(K_MINE, {(int64_t)rng.range(1, 10), (int64_t)(rng.next() >> 16), (int64_t)rng.pick({1, 2, 3, 0, 1, 2})})); break;
         case 2: p.ops.push_back(Op(K_LOCK, {(int64_t)rng.below(NSLOTS), 0, (int64_t)rng.skewed(0, 400), 0})); break;
@@ -100,6 +113,11 @@ void GenAuto(Rng& rng, Plan& p)
         case 4: p.ops.push_back(Op(K_UNLOCK, {(int64_t)rng.below(NSLOTS)})); break;
         default: break;
         }
+    }
+    if (held) {
+        p.ops.push_back(Op(K_AUTOPRUNE, {}));
+        p.ops.push_back(rng.chance(1, 2) ? Op(K_UNLOCK, {NSLOTS - 1}) : Op(K_LOCK, {NSLOTS - 1, 0, (int64_t)rng.range(0, 200), 0}));
+        p.ops.push_back(Op(K_AUTOPRUNE, {}));
     }
     // phase B: 300-380 smaller blocks so that the big ones leave the keep window one by one, with explicit automatic prune checks,
     // an index-style lock following the tip, a few reorgs, further bursts of big blocks, the odd manual prune and restart
@@ -136,6 +154,34 @@ Plan Gen(uint64_t seed, Tier tier)
         return p;
     }
     p.knobs["auto"] = 0;
+    // thorough tier, 1 run in 12: the node loads the height-200 regtest UTXO snapshot first; everything below happens on the snapshot chainstate
+    // while blocks 1..200 arrive for background validation (K_BG), in order or not, possibly never completing
+    const bool snap = tier == Tier::THOROUGH && rng.chance(1, 12);
+    int bg_left = 0;
+    if (snap) {
+        p.knobs["snapshot"] = 1;
+        p.knobs["pre_blocks"] = rng.chance(1, 3) ? 0 : rng.range(1, 150);
+        bg_left = rng.chance(1, 5) ? 1000 : (int)rng.range(0, 199); // in-order background blocks the plan hands out (1000: validation completes)
+    }
+    bool first_bg = true;
+    auto bg = [&] {
+        if (!snap) return;
+        if (first_bg) {
+            // in half of the snapshot runs the snapshot block itself is the first thing the background download fetches: it lands in a block file
+            // of the snapshot chainstate, among blocks above the snapshot, and has to survive there until every ancestor has been validated
+            first_bg = false;
+            if (rng.chance(1, 2)) {
+                p.ops.push_back(Op(K_BG, {1, 1, 0}));
+                return;
+            }
+        }
+        if (rng.chance(1, 3)) p.ops.push_back(Op(K_BG, {1, 1, (int64_t)(rng.chance(1, 3) ? 0 : rng.below(1000))})); // sel 0 = the snapshot block itself
+        else if (bg_left > 0) {
+            int n = (int)std::min<int64_t>(bg_left, rng.range(1, 40));
+            bg_left -= n;
+            p.ops.push_back(Op(K_BG, {n, 0, 0}));
+        }
+    };
     p.knobs["target_mode"] = (int64_t)rng.pick({6, 2, 2}); // 0: prune_target=1 (brief), 1: PRUNE_TARGET_MANUAL (-prune=1 as init.cpp maps it), 2: explicit 550-700 MiB
     p.knobs["target_mib"] = rng.range(550, 700);
     p.knobs["fast_prune"] = rng.chance(15, 16); // 1/16: ordinary 128 MiB files - everything lives in blk00000, nothing may ever be deleted
@@ -153,9 +199,14 @@ Plan Gen(uint64_t seed, Tier tier)
     auto r16 = [&] { return (int64_t)(rng.next() >> 16); };
     int mined = 0;
     auto mine = [&](int n, int64_t mode) { p.ops.push_back(Op(K_MINE, {n, r16(), mode})); mined += n; };
+    // "lock, then a disconnect deeper than the lock buffer, then 300 more blocks": in half of the runs lock2 is set close to the tip early on,
+    // the chain is rolled back 13-40 blocks below it (reorg or invalidateblock) and lock2 is then left alone, so that the files just above
+    // the fork point leave the 288-block window while the moved-back lock is the only thing protecting them
+    const bool scen = rng.chance(1, 2);
+    const int free_slots = scen ? NSLOTS - 1 : NSLOTS;
     auto lock = [&] {
         int mode = (int)rng.pick({40, 20, 25, 4, 11});
-        int64_t slot = mode == 0 && rng.chance(2, 3) ? 0 : (int64_t)rng.below(NSLOTS);
+        int64_t slot = mode == 0 && rng.chance(2, 3) ? 0 : (int64_t)rng.below(free_slots);
         p.ops.push_back(Op(K_LOCK, {slot, mode, (int64_t)(mode == 0 ? rng.skewed(0, 420) : rng.below(2000)), (int64_t)rng.range(-1, 12)}));
     };
     auto prune = [&] { p.ops.push_back(Op(K_PRUNE, {(int64_t)rng.pick({15, 25, 25, 25, 10}), (int64_t)rng.below(2000), (int64_t)rng.range(-3, 3)})); };
@@ -163,12 +214,24 @@ Plan Gen(uint64_t seed, Tier tier)
         int64_t depth = rng.chance(3, 4) ? rng.range(1, 6) : rng.range(7, 40);
         p.ops.push_back(Op(K_REORG, {depth, (int64_t)rng.range(1, 3), r16(), size_mode()}));
     };
-    const int total = (int)rng.range(400, tier == Tier::THOROUGH ? 1100 : 700);
+    int total = (int)rng.range(400, tier == Tier::THOROUGH ? 1100 : 700);
+    const int scen_at = (int)rng.range(30, 260);
+    if (scen) total = std::max(total, scen_at + 360);
+    bool scen_done = !scen;
     // phase 1: reach the point where something can become prunable (tip > 288)
-    if (rng.chance(1, 6)) { mine(1, 0); mine(1, 3); } // a huge block 2: blk00000 holds only genesis and block 1
+    if (!snap && rng.chance(1, 6)) { mine(1, 0); mine(1, 3); } // a huge block 2: blk00000 holds only genesis and block 1
     const int phase1 = 289 + (int)rng.range(0, 60);
     while (mined < phase1) {
         mine((int)rng.range(10, 70), size_mode());
+        if (snap && rng.chance(1, 2)) bg();
+        if (!scen_done && mined >= scen_at) {
+            scen_done = true;
+            p.ops.push_back(Op(K_LOCK, {NSLOTS - 1, 0, (int64_t)rng.range(0, 3), 0}));
+            if (rng.chance(1, 3)) mine((int)rng.range(1, 6), size_mode());
+            if (rng.chance(2, 3)) p.ops.push_back(Op(K_REORG, {(int64_t)rng.range(13, 40), (int64_t)rng.range(1, 3), r16(), size_mode()}));
+            else p.ops.push_back(Op(K_INVAL, {(int64_t)rng.range(13, 40)}));
+            continue;
+        }
         switch (rng.pick({40, 25, 12, 8, 8, 4, 3})) {
         case 1: lock(); break;
         case 2: reorg(); break;
@@ -188,17 +251,19 @@ Plan Gen(uint64_t seed, Tier tier)
     w[4] = rng.below(5);        // unlock
     w[5] = 3 + rng.below(10);   // reorg
     w[6] = rng.below(5);        // invalidate+reconsider
-    w[7] = rng.below(5);        // restart
+    w[7] = scen ? rng.below(2) : rng.below(5); // restart (forgets every lock)
     w[8] = rng.below(4);        // flush
     w[9] = rng.below(4);        // PruneAndFlush
     w[10] = rng.chance(1, 2) ? rng.below(8) : 0; // re-deliver pruned blocks
+    if (snap) w[7] = 0;
     while (mined < total) {
+        if (snap && rng.chance(1, 4)) bg();
         switch (rng.pick(w)) {
         case 0: mine((int)rng.skewed(1, 50), size_mode()); break;
         case 1: p.ops.push_back(Op(K_ALIGN, {(int64_t)rng.range(-1, 1), r16(), size_mode()})); mined += 5; break;
         case 2: prune(); break;
         case 3: lock(); break;
-        case 4: p.ops.push_back(Op(K_UNLOCK, {(int64_t)rng.below(NSLOTS)})); break;
+        case 4: p.ops.push_back(Op(K_UNLOCK, {(int64_t)rng.below(free_slots)})); break;
         case 5: reorg(); break;
         case 6: p.ops.push_back(Op(K_INVAL, {(int64_t)rng.range(1, 40)})); break;
         case 7: p.ops.push_back(Op(K_RESTART, {})); break;
@@ -253,8 +318,23 @@ struct PruneSim {
     uint64_t files_deleted_total{0};
     bool pruned_before_restart{false};
     size_t observe_count{0};
+    // assumeutxo: the snapshot chainstate is active; blocks 1..SNAP_H arrive for background validation
+    const bool snap_mode;
+    bool snap_active{false};
+    std::vector<int> base;                //!< RefChain index of base-chain block at height h (base[0] = genesis)
+    std::vector<char> base_delivered;     //!< per height
+    int max_tip_seen{0};
+    /** Height up to which background validation has got: the longest prefix 1..k of delivered blocks (the background chainstate connects whatever is
+     *  available in order; cross-checked against the historical chainstate's tip in Observe). */
+    int BgHeight() const
+    {
+        int k = 0;
+        while (k + 1 <= SNAP_H && base_delivered[k + 1]) ++k;
+        return k;
+    }
+    size_t autoprune_count{0};
 
-    explicit PruneSim(Ctx& c) : ctx(c), cs(c, ChainSimConfig{}), auto_mode(c.knob("auto", 0) != 0) {}
+    explicit PruneSim(Ctx& c) : ctx(c), cs(c, ChainSimConfig{}), auto_mode(c.knob("auto", 0) != 0), snap_mode(c.knob("snapshot", 0) != 0) {}
 
     SimNode& N() { return *cs.node; }
     const RefChain& R() { return *cs.ref; }
@@ -361,6 +441,7 @@ struct PruneSim {
      *  of a coinbase-only block is the all-zero coinbase leaf, so the commitment is SHA256d(0^32 || 0^32)). */
     int MinePadded(int parent, size_t pad, uint64_t seed, bool is_big = false)
     {
+        Timer t(0);
         const RefBlock& P = R().blocks[parent];
         const int height = P.height + 1;
         Rng r(mix64(seed, 0x70616464));
@@ -374,14 +455,26 @@ struct PruneSim {
         cb.vin[0].prevout.SetNull();
         cb.vin[0].scriptSig = CScript() << height << OP_0 << (int64_t)(++cs.cb_nonce);
         cb.vin[0].scriptWitness.stack = {std::vector<unsigned char>(32, 0)};
-        cb.vout.emplace_back(RefSubsidy(height, R().halving_interval), Keys().Spk((SK)r.below((int)SK::NKINDS), (int)r.below(N_KEYS)));
-        cb.vout.emplace_back(0, CScript() << OP_RETURN << std::vector<unsigned char>(pad, (unsigned char)(0x51 + (seed & 7))));
+        cb.vout.resize(3);
+        cb.vout[0] = CTxOut(RefSubsidy(height, R().halving_interval), Keys().Spk((SK)r.below((int)SK::NKINDS), (int)r.below(N_KEYS)));
+        {
+            // OP_RETURN OP_PUSHDATA4 <pad zero bytes>, written in place (copies of a 1 MB script are what a big-block run would spend its time on)
+            CScript& s = cb.vout[1].scriptPubKey;
+            s.resize(6 + pad);
+            s[0] = OP_RETURN;
+            s[1] = OP_PUSHDATA4;
+            s[2] = (unsigned char)(pad & 0xff);
+            s[3] = (unsigned char)((pad >> 8) & 0xff);
+            s[4] = (unsigned char)((pad >> 16) & 0xff);
+            s[5] = (unsigned char)((pad >> 24) & 0xff);
+            cb.vout[1].nValue = 0;
+        }
         unsigned char zeros[64] = {0};
         uint256 commit;
         CHash256().Write(zeros).Finalize(commit);
         std::vector<unsigned char> spk{OP_RETURN, 0x24, 0xaa, 0x21, 0xa9, 0xed};
         spk.insert(spk.end(), commit.begin(), commit.end());
-        cb.vout.emplace_back(0, CScript(spk.begin(), spk.end()));
+        cb.vout[2] = CTxOut(0, CScript(spk.begin(), spk.end()));
         b->vtx.push_back(MakeTransactionRef(std::move(cb)));
         b->hashMerkleRoot = b->vtx[0]->GetHash().ToUint256();
         Grind(*b, N().params->GetConsensus());
@@ -394,7 +487,6 @@ struct PruneSim {
 
     int MineOne(int parent, int mode, Rng& r)
     {
-        Timer t(0);
         if (mode == 4) mode = (int)r.pick({40, 28, 22, 4, 0, 6});
         size_t pad = 0;
         switch (mode) {
@@ -404,7 +496,10 @@ struct PruneSim {
         case 5: pad = (size_t)r.range(20000, 65000); break;
         default: break;
         }
-        if (pad == 0) return Push(cs.MineOn(parent, (int)r.below(4), r.next(), D_NONE, B_NONE, 0));
+        if (pad == 0) {
+            Timer t(0);
+            return Push(cs.MineOn(parent, (int)r.below(4), r.next(), D_NONE, B_NONE, 0));
+        }
         return MinePadded(parent, pad, r.next());
     }
 
@@ -452,13 +547,18 @@ struct PruneSim {
                 const int h = R().blocks[i].height;
                 // (1) within the last 288 blocks of the active tip
                 if (h > op_tmax - KEEP)
-                    ctx.failf("pruned-block-within-288-of-tip", "%s: blk/rev%05d was deleted although it held block #%zu at height %d; tip height %d, so heights above %d must be kept", what, f, i, h, op_tmax, op_tmax - KEEP);
+                    // (chains shorter than 288 blocks - everything is inside the keep window - get a class of their own, see the lock clause)
+                    ctx.failf(op_tmax < KEEP ? "pruned-block-within-288-of-tip-of-chain-shorter-than-288" : "pruned-block-within-288-of-tip", "%s: blk/rev%05d was deleted although it held block #%zu at height %d; tip height %d, so heights above %d must be kept", what, f, i, h, op_tmax, op_tmax - KEEP);
                 // (2) at or above an active prune lock
                 for (int s = 0; s < NSLOTS; ++s)
                     if (locks_at_op_start[s] != NO_LOCK && h >= locks_at_op_start[s])
                         // (locks at height 0 or 1 get a class of their own: a property of the input, so that shrinking and the known-findings
                         // lookup can tell this corner of the lock-position space from every other lock position)
                         ctx.failf(locks_at_op_start[s] <= 1 ? "pruned-block-at-or-above-prune-lock-of-height-0-or-1" : "pruned-block-at-or-above-prune-lock", "%s: blk/rev%05d was deleted although it held block #%zu at height %d and prune lock lock%d keeps everything from height %d (tip height %d)", what, f, i, h, s, locks_at_op_start[s], op_tmax);
+                // (2b) not yet validated by background validation of the snapshot
+                if (snap_active && h <= SNAP_H && h > BgHeight())
+                    ctx.failf("pruned-block-not-yet-background-validated", "%s: blk/rev%05d was deleted although it held block #%zu at height %d; the snapshot base is %d and background validation has only reached %d (tip height %d)", what, f, i,
+                              h, SNAP_H, BgHeight(), op_tmax);
                 // (3) flags follow the file
                 const bool have = pis[i] && (pis[i]->nStatus & BLOCK_HAVE_DATA), haveu = pis[i] && (pis[i]->nStatus & BLOCK_HAVE_UNDO);
                 if (have || haveu)
@@ -480,6 +580,12 @@ struct PruneSim {
         }
         if (!deleted.empty() && files_deleted_total) pruned_before_restart = true;
         const uint64_t usage = bm.CalculateCurrentUsage();
+        if (snap_active) {
+            const Chainstate* hist = N().cm().HistoricalChainstate();
+            const int real_bg = hist ? hist->m_chain.Height() : SNAP_H;
+            if (real_bg != BgHeight()) ctx.failf("sim-background-height", "%s: the model says background validation reached %d, the node's historical chainstate is at %d", what, BgHeight(), real_bg);
+            if (N().cs().m_chain.Height() < SNAP_H) ctx.failf("sim-snapshot-chainstate", "%s: active chainstate below the snapshot base", what);
+        }
         if (deleted_with_blocks && !manual) {
             // Automatic pruning "removes eligible files until usage is back under the target": it must not have removed a file when
             // usage (plus the allocation reserve) was already under the target before that file went. Order-free form: adding the
@@ -508,8 +614,12 @@ struct PruneSim {
             if (L.ever && !L.data) ++npruned;
         }
         // ---- statement (1) read directly: the last 288 blocks of the active chain have block and undo data ----
+        // (only blocks the node was given, and only heights that were inside the window ever since the highest tip so far)
+        max_tip_seen = std::max(max_tip_seen, op_tmax);
         for (int i = tip, n = 0; i >= 0 && n < KEEP; i = R().blocks[i].parent, ++n) {
             const CBlockIndex* pi = pis[i];
+            if (!loc[i].ever || R().blocks[i].height <= max_tip_seen - KEEP) continue;
+            if (snap_active && R().blocks[i].height <= SNAP_H) continue; // downloaded for background validation: no undo data until connected there
             if (!pi || !(pi->nStatus & BLOCK_HAVE_DATA) || (R().blocks[i].height > 0 && !(pi->nStatus & BLOCK_HAVE_UNDO)))
                 ctx.failf("block-in-keep-window-without-data", "%s: active-chain block at height %d (tip %d) has no %s", what, R().blocks[i].height, tiph, pi && (pi->nStatus & BLOCK_HAVE_DATA) ? "undo data" : "block data");
         }
@@ -526,7 +636,7 @@ struct PruneSim {
             if (!d1.blk.count(L.file)) ctx.failf("flagged-block-file-missing", "%s: block #%zu (h=%d) carries BLOCK_HAVE_DATA but blk%05d.dat is not in the blocks directory", what, i, R().blocks[i].height, L.file);
             if (L.undo && !d1.rev.count(L.file)) ctx.failf("flagged-block-file-missing", "%s: block #%zu (h=%d) carries BLOCK_HAVE_UNDO but rev%05d.dat is not in the blocks directory", what, i, R().blocks[i].height, L.file);
             if (!deep) continue;
-            if (big[i] && (i % 16) != (size_t)(tiph % 16)) continue; // sample the 1 MB blocks
+            if (big[i] && (i % 32) != (size_t)(tiph % 32)) continue; // sample the 1 MB blocks
             // after a manual prune: every block in a file next to a deleted one, a rotating quarter of the rest; everything at restart / end
             if (manual && !near_deleted(L.file) && (i + observe_count) % 4 != 0) continue;
             CBlock blk;
@@ -570,6 +680,99 @@ struct PruneSim {
                           f, r.minh, r.maxh, tiph - KEEP, maybe);
         }
         ctx.probe("auto_prune_no_eligible_file_remains");
+    }
+
+    // ---- assumeutxo ----
+    /** The chain behind regtest's height-200 assumeutxo entry (src/test/util/mining.cpp CreateBlockChain, re-stated here): coinbase-only
+     *  version-4 blocks paying P2WSH(OP_TRUE), coinbase nLockTime = height-1, nTime = genesis time + height. */
+    void SetupSnapshot()
+    {
+        const CChainParams& params = *N().params;
+        const Consensus::Params& cp = params.GetConsensus();
+        CScript wsh_true;
+        {
+            const unsigned char op_true = OP_TRUE;
+            uint256 h;
+            CSHA256().Write(&op_true, 1).Finalize(h.begin());
+            wsh_true = CScript() << OP_0 << std::vector<unsigned char>(h.begin(), h.end());
+        }
+        base.assign(SNAP_H + 1, 0);
+        base_delivered.assign(SNAP_H + 2, 0);
+        uint32_t time = params.GenesisBlock().nTime;
+        std::vector<CBlockHeader> headers;
+        for (int h = 1; h <= SNAP_H; ++h) {
+            auto b = std::make_shared<CBlock>();
+            CMutableTransaction cb;
+            cb.nLockTime = (uint32_t)(h - 1);
+            cb.vin.resize(1);
+            cb.vin[0].prevout.SetNull();
+            cb.vin[0].nSequence = CTxIn::MAX_SEQUENCE_NONFINAL;
+            cb.vin[0].scriptSig = CScript() << (int64_t)h << OP_0;
+            cb.vout.resize(1);
+            cb.vout[0].scriptPubKey = wsh_true;
+            cb.vout[0].nValue = RefSubsidy(h, R().halving_interval);
+            b->vtx = {MakeTransactionRef(std::move(cb))};
+            b->nVersion = 4;
+            b->hashPrevBlock = R().blocks[base[h - 1]].hash;
+            b->hashMerkleRoot = b->vtx[0]->GetHash().ToUint256();
+            b->nTime = ++time;
+            b->nBits = params.GenesisBlock().nBits;
+            b->nNonce = 0;
+            while (!CheckProofOfWork(b->GetHash(), b->nBits, cp)) ++b->nNonce;
+            BlockLabel label;
+            label.defect = "none";
+            base[h] = Push(cs.AddBlock(b, base[h - 1], label));
+            if (R().blocks[base[h]].verdict != Verdict::VALID) ctx.failf("sim-snapshot-chain", "base block %d is not valid per the model: %s", h, R().blocks[base[h]].reason.c_str());
+            headers.push_back(static_cast<const CBlockHeader&>(*b));
+        }
+        const auto au = params.AssumeutxoForHeight(SNAP_H);
+        if (!au || au->blockhash != R().blocks[base[SNAP_H]].hash) ctx.failf("sim-snapshot-chain", "block %d of the rebuilt chain is not regtest's assumeutxo block", SNAP_H);
+        BlockValidationState st;
+        if (!N().ProcessHeaders(headers, st)) ctx.failf("sim-snapshot-chain", "headers rejected: %s", st.ToString().c_str());
+        // part of the chain is already there when the snapshot is loaded
+        const int pre = (int)std::clamp<int64_t>(ctx.knob("pre_blocks", 0), 0, SNAP_H - 10);
+        BeginOp();
+        for (int h = 1; h <= pre; ++h) {
+            Dlv(base[h]);
+            base_delivered[h] = 1;
+        }
+        Observe("blocks before the snapshot", false, false);
+        // the snapshot file: metadata, then one coin per coinbase
+        const fs::path path = fs::PathFromString(N().opts.dir) / "utxo_snapshot.dat";
+        {
+            AutoFile out{fsbridge::fopen(path, "wb")};
+            out << node::SnapshotMetadata{params.MessageStart(), R().blocks[base[SNAP_H]].hash, (uint64_t)SNAP_H};
+            for (int h = 1; h <= SNAP_H; ++h) {
+                const CTransaction& cbtx = *R().blocks[base[h]].block->vtx[0];
+                out << cbtx.GetHash();
+                WriteCompactSize(out, 1);
+                WriteCompactSize(out, 0);
+                out << Coin(cbtx.vout[0], h, /*fCoinBaseIn=*/true);
+            }
+            if (out.fclose() != 0) ctx.failf("sim-snapshot-file", "cannot write the snapshot file");
+        }
+        {
+            AutoFile in{fsbridge::fopen(path, "rb")};
+            node::SnapshotMetadata meta{params.MessageStart()};
+            in >> meta;
+            auto res = N().cm().ActivateSnapshot(in, meta, /*in_memory=*/false);
+            if (!res) ctx.failf("sim-snapshot-activation", "ActivateSnapshot failed: %s", util::ErrorString(res).original.c_str());
+        }
+        snap_active = true;
+        BeginOp();
+        NoteTipAfterSnapshot();
+        Observe("snapshot activated", false, false);
+        ctx.probe("snapshot_activated");
+        ctx.evf("snapshot at %d activated, background at %d", SNAP_H, BgHeight());
+    }
+
+    /** Activating the snapshot moves the active tip to the snapshot base without disconnecting anything. */
+    void NoteTipAfterSnapshot()
+    {
+        int t = cs.TipIdx();
+        if (t != base[SNAP_H]) ctx.failf("sim-snapshot-activation", "active tip is not the snapshot base after activation");
+        tip = t;
+        op_tmax = TipH();
     }
 
     // ---- operations ----
@@ -688,9 +891,11 @@ struct PruneSim {
             break;
         }
         case K_REORG: {
-            const int depth = (int)std::clamp<int64_t>(op.arg(0), 1, 40);
+            int depth = (int)std::clamp<int64_t>(op.arg(0), 1, 40);
             const int tiph = TipH();
             if (tiph < 2) break;
+            if (snap_active) depth = std::min(depth, tiph - SNAP_H); // nothing below the snapshot base can be disconnected
+            if (depth < 1) break;
             int fork = R().Ancestor(tip, std::max(0, tiph - depth));
             int len = tiph - R().blocks[fork].height + (int)std::clamp<int64_t>(op.arg(1), 1, 3);
             Rng r(mix64((uint64_t)op.arg(2), 0x72656f));
@@ -707,9 +912,10 @@ struct PruneSim {
             break;
         }
         case K_INVAL: {
-            const int depth = (int)std::clamp<int64_t>(op.arg(0), 1, 40);
+            int depth = (int)std::clamp<int64_t>(op.arg(0), 1, 40);
             const int tiph = TipH();
-            if (tiph - depth < 1) break;
+            if (snap_active) depth = std::min(depth, tiph - SNAP_H);
+            if (depth < 1 || tiph - depth < 1) break;
             int victim = R().Ancestor(tip, tiph - depth + 1);
             CBlockIndex* pi = WITH_LOCK(cs_main, return N().cm().m_blockman.LookupBlockIndex(R().blocks[victim].hash));
             if (!pi) break;
@@ -758,10 +964,12 @@ struct PruneSim {
         }
         case K_AUTOPRUNE: {
             {
+                // as init.cpp does at start-up: every chainstate
                 LOCK(cs_main);
+                if (Chainstate* h = N().cm().HistoricalChainstate()) h->PruneAndFlush();
                 N().cs().PruneAndFlush();
             }
-            Observe(desc.c_str(), false, auto_mode);
+            Observe(desc.c_str(), false, auto_mode && (autoprune_count++ % 4) == 0);
             CheckAutoComplete(desc.c_str());
             ctx.probe("prune_and_flush");
             ctx.evf("autoprune tip=%d", TipH());
@@ -779,6 +987,35 @@ struct PruneSim {
                 ctx.probe("redelivered_pruned_block");
             }
             ctx.evf("redeliver n=%d", n);
+            break;
+        }
+        case K_BG: {
+            if (!snap_active) break;
+            int done = 0;
+            if (op.arg(1)) {
+                // one block out of order: sel 0 = the snapshot block itself, else the sel-th not yet delivered height counted from the top
+                std::vector<int> missing;
+                for (int h = SNAP_H; h >= 1; --h)
+                    if (!base_delivered[h]) missing.push_back(h);
+                if (!missing.empty()) {
+                    int h = missing[op.mod(2, missing.size())];
+                    if (h > BgHeight() + 1) ctx.probe("background_block_out_of_order");
+                    if (h == SNAP_H && BgHeight() < SNAP_H - 1) ctx.probe("snapshot_block_downloaded_before_its_ancestors");
+                    Dlv(base[h]);
+                    base_delivered[h] = 1;
+                    ++done;
+                }
+            } else {
+                int n = (int)std::clamp<int64_t>(op.arg(0), 1, 40);
+                for (int h = 1; h <= SNAP_H && done < n; ++h) {
+                    if (base_delivered[h]) continue;
+                    Dlv(base[h]);
+                    base_delivered[h] = 1;
+                    ++done;
+                }
+            }
+            if (BgHeight() == SNAP_H) ctx.probe("background_validation_completed");
+            ctx.evf("bg delivered=%d -> background height %d, tip h=%d", done, BgHeight(), TipH());
             break;
         }
         default: return;
@@ -831,6 +1068,7 @@ struct PruneSim {
         BeginOp();
         Observe("start", false, false);
         if (!loc[0].data) ctx.failf("sim-genesis-not-stored", "genesis block has no data after start");
+        if (snap_mode) SetupSnapshot();
         for (const Op& op : ctx.plan.ops) Exec(op);
         BeginOp();
         Observe("end of run", false, true);
@@ -860,8 +1098,8 @@ Engine MakeEngine()
     e.run = Run;
     e.describe = Describe;
     e.chunk = 1;
-    e.quick_runs = 600;
-    e.thorough_runs = 9000;
+    e.quick_runs = 400;
+    e.thorough_runs = 5000;
     e.quick_budget_s = 50;
     e.thorough_budget_s = 900;
     e.run_timeout_s = 300;
